@@ -455,7 +455,10 @@ class LowerToIRVisitor(Visitor.DefaultVisitor):
                 ctx.BasicBlock.AddInstruction(si)
                 return si
             else:
-                leftComponentCount = value.Type.Size
+                # A scalar can be swizzled like a one-component vector
+                leftComponentCount = (
+                    value.Type.Size if value.Type.IsVector() else 1
+                )
                 indices = list(range(leftComponentCount))
 
                 for i, c in enumerate(member.GetName()):
